@@ -132,6 +132,7 @@ class Evaluator:
         self.funcs = funcs or {}
         self.on_call = on_call
         self.modset = modset  # dotted "self.m" -> set of self attributes the method may assign (None: not a method)
+        self.private_funcs: set = set()  # module-level private functions of the analysed module: a call that is not interpreted makes the fold unfaithful
         self.globals: Dict[str, object] = {}  # module-level constants of the analysed module (names not bound locally)
         self.signatures: Dict[str, List[str]] = {}  # dotted callee -> parameter names, so that hooks see keyword arguments positionally
         self.max_unroll = 2  # bounded unrolling of `while` loops whose condition stays true/unknown
@@ -349,6 +350,8 @@ class Evaluator:
                     me.attrs[attr] = UNK
         if isinstance(c.func, ast.Name):
             n = c.func.id
+            if n in self.private_funcs and n not in st.env:
+                raise AnalysisError("abstract interpreter: private helper %s() is called in a position where it cannot be followed" % n)
             if n == "cast" and len(args) == 2:
                 return args[1]
             if n == "getattr" and len(args) >= 2 and isinstance(args[1], str):
